@@ -63,12 +63,13 @@ def run(ctx, monitors=MONITORS):
     exh = ["bolt", "boltmut", "trimmed", "trimmedmut", "memdb"] if q else \
           ["bolt_big", "boltmut_big", "trimmed_big", "trimmedmut_big", "memdb_big", "memdb_k2"]
     for c in exh:
-        ctx.model_check(MOD, "MC_StoreBackend_%s.cfg" % c, workers=W, timeout=120 if q else 900,
+        ctx.model_check(MOD, "MC_StoreBackend_%s.cfg" % c, workers=W, timeout=400 if q else 1500,
                         coverage=(not q and c in ("bolt_big", "memdb_k2")))
     # strict configs: every monitor at every call of the transcribed code.  Expected to fail for the
     # trimmed kinds (F7) and the ring (F15); a failure is a MODEL counterexample, it only becomes a
     # verdict if the replay below shows it on the real code.
     ncex = 0
+    exhaustive_so_far = ctx.exhaustive      # the strict runs stop at their first counterexample by design
     for c in ("trimmed_strict", "trimmedc_strict", "memdb_strict"):
         r = ctx.model_check(MOD, "MC_StoreBackend_%s.cfg" % c, expect_ok=False, workers=1, timeout=300)
         if r.timeout or (r.error and not r.violated):
@@ -84,6 +85,7 @@ def run(ctx, monitors=MONITORS):
         if not r.violated:
             ctx.notes.append("strict config %s: the transcribed code satisfies every monitor" % c)
 
+    ctx.exhaustive = exhaustive_so_far
     # ---- 2a. state cover of a complete graph (BFS path to every distinct state)
     r = ctx.model_check(MOD, "MC_StoreBackend_cover%s.cfg" % ("" if q else "_big"), workers=1,
                         timeout=300 if q else 1200)
@@ -136,6 +138,7 @@ def run(ctx, monitors=MONITORS):
                         per[be] = per.get(be, 0) + 1
                         break
     ctx.extra["scenarios_per_backend"] = per
+    ctx.extra["tlc_behaviours_replayed"] = {"counterexamples": ncex, "state_cover_paths": ncov, "random_walks": nw}
     ctx.extra["calls_on_real_stores"] = count_lines(trace, "Op")
     for be in ("bolt", "trimmed", "trimmedc", "memdb"):
         if not per.get(be):
